@@ -450,12 +450,23 @@ ROOT_CONFIGS = [
     ('unnormalised', '{BASE}/t/other/../root'),
     ('pathlib', 'Path:{BASE}/t/root'),
     ('nested', '{BASE}/t/root/sub'),           # sibling t/root/sub_evil extends its name
+    # round 4: file systems made by the package's own factories (entry points that construct a RawFileSystem)
+    ('factory-get_filesystem', 'Factory:get_filesystem:{BASE}/t/root'),
+    ('factory-get_inst_locs', 'Factory:get_inst_locs:{BASE}/t/root/map.vmf'),
 ]
 CHAIN_PREFIXES = [None, '', 'sub', 'sub/']
+# round 4: a chain inside a chain (outer prefix, inner prefix) around the constrained member; and an UNconstrained member on
+# another folder ({BASE}/elsewhere, consulted first) next to the constrained one
+NESTED_CHAINS = [('nest', 'sub', ''), ('nest', '', 'sub'), ('nest', 'x/..', 'sub'), ('mixed', '', ''), ('mixed', '..', 'sub')]
+THIN_LABELS = ['abs-trailing-sep', 'relative-trailing-sep', 'unnormalised', 'pathlib']
+PLAIN_CONFIGS = 7           # the first seven root configurations are drawn by the random part (keeps the random stream of round 3)
 ESCAPE_KEYS = ('escape-', 'handle-escape-', 'history-escape-')
 # after_loose comes before handle_loose: both let an unconstrained system resolve the name, the history op wants to be first
 OPS = ['contains', 'getitem', 'open_bin', 'open_str', 'walk', 'after_loose', 'handle_loose', 'handle_made']
 SUB_OPS = ['contains', 'getitem', 'open_bin', 'open_str', 'walk']
+HIST_SUB_OPS = SUB_OPS + ['read_kv1']       # what the history operation performs on both file systems
+# round 4: the inherited entry points (FileSystem.read_kv1 / read_prop / __iter__), run by the targeted part only
+ENTRY_OPS = ['read_kv1']
 SEGS = ['..', '..', '.', '', 'in.txt', 'a', 'sub', 'deep.txt', 'root', 'root_evil', 'secret.txt', 't', 'rootx', 'root.bak',
         'sub_evil', 'x.txt', 'x', 'above.txt', 'top.txt', 'other', 'roo', 'nested.txt', 'elsewhere', 'data.txt',
         'Root', 'ROOT', ' ..', '.. ', '%2e%2e', '\uff0e\uff0e']
@@ -508,16 +519,113 @@ def build_tree(base: Path) -> None:
     for rel in sorted(TREE):
         p = base / rel
         p.parent.mkdir(parents=True, exist_ok=True)
-        p.write_text(f'CONTENT-OF:{rel}\n')
+        p.write_text(f'"CONTENT-OF:{rel}" "1"\n')      # a one-line keyvalues file naming itself (read_kv1 can parse it)
+
+
+SHARED_CTOR_STATE: dict = {}
+
+
+def _ctor_extras() -> dict:
+    """Constructor parameters of RawFileSystem beyond (path, constrain_path): whatever can be handed in from outside is
+    handed in SHARED between every object the search makes (one dict per parameter), as a caller wanting a cache would."""
+    from srctools.filesys import RawFileSystem
+    return {name: SHARED_CTOR_STATE.setdefault(name, {}) for name in _extra_params(RawFileSystem.__init__)}
+
+
+@functools.lru_cache(maxsize=8)
+def _extra_params(init) -> tuple:
+    import inspect
+    try:
+        params = list(inspect.signature(init).parameters.values())[1:]
+    except (TypeError, ValueError):
+        return ()
+    return tuple(prm.name for prm in params if prm.name not in ('path', 'constrain_path')
+                 and prm.kind not in (prm.VAR_POSITIONAL, prm.VAR_KEYWORD))
+
+
+def new_raw(path, constrain: bool = True):
+    from srctools.filesys import RawFileSystem
+    extras = _ctor_extras()
+    if extras:
+        try:
+            return RawFileSystem(path, constrain_path=constrain, **extras)
+        except TypeError:
+            pass
+    return RawFileSystem(path, constrain_path=constrain)
+
+
+def content_paths(base: str, d: str) -> list[str]:
+    """Which files of the tree a piece of returned data (file text, parsed key names, an error message) came from."""
+    import re
+    return [os.path.join(base, m.group(1).strip()) for m in re.finditer(r'CONTENT-OF:([^"\n]*)', d)]
 
 
 def make_fs(base: str, root_spec: str, chain_prefix, constrain: bool = True):
+    """(file system under test, its constrained RawFileSystem member)."""
     from srctools.filesys import FileSystemChain, RawFileSystem
     spec = root_spec.replace('{BASE}', base)
-    raw = RawFileSystem(Path(spec[5:]) if spec.startswith('Path:') else spec, constrain_path=constrain)
+    if spec.startswith('Factory:') and constrain:
+        _, how, arg = spec.split(':', 2)
+        if how == 'get_filesystem':
+            from srctools.filesys import get_filesystem
+            raw = get_filesystem(arg)
+        else:
+            from srctools.instancing import get_inst_locs
+            made = get_inst_locs(Path(arg))
+            raw = made.systems[0][0]
+            if chain_prefix is None:
+                return made, raw
+    else:
+        if spec.startswith('Factory:'):
+            spec = os.path.dirname(spec.split(':', 2)[2]) if spec.split(':', 2)[1] == 'get_inst_locs' else spec.split(':', 2)[2]
+        raw = new_raw(Path(spec[5:]) if spec.startswith('Path:') else spec, constrain)
     if chain_prefix is None:
         return raw, raw
+    if isinstance(chain_prefix, tuple) and chain_prefix[0] == 'nest':
+        return FileSystemChain((FileSystemChain((raw, chain_prefix[2])), chain_prefix[1])), raw
+    if isinstance(chain_prefix, tuple) and chain_prefix[0] == 'mixed':
+        return FileSystemChain((new_raw(base + '/elsewhere', False), chain_prefix[1]), (raw, chain_prefix[2])), raw
     return FileSystemChain((raw, chain_prefix)), raw
+
+
+def chain_rel(chain_prefix, path: str) -> str:
+    """The name a member receives for `path` (a chain joins its prefix first and then turns the slashes)."""
+    if chain_prefix is None:
+        return path.replace('\\', '/')
+    if isinstance(chain_prefix, tuple):
+        outer = os.path.join(chain_prefix[1], path).replace('\\', '/')
+        return os.path.join(chain_prefix[2], outer).replace('\\', '/') if chain_prefix[0] == 'nest' else \
+            os.path.join(chain_prefix[2], path).replace('\\', '/')
+    return os.path.join(chain_prefix, path).replace('\\', '/')
+
+
+class _Hang(BaseException):
+    """An operation on the implementation did not come back in time."""
+
+
+@contextlib.contextmanager
+def time_limit(seconds: float):
+    """Alarm around one call into the implementation (main thread only): a fault that makes it loop is a failing input,
+    not a hung check.  The limit is far above (> 100x) what an operation takes on a loaded machine."""
+    import signal
+    if threading.current_thread() is not threading.main_thread():
+        yield
+        return
+    if not _alarm_installed:
+        signal.signal(signal.SIGALRM, _on_alarm)
+        _alarm_installed.append(True)
+    signal.setitimer(signal.ITIMER_REAL, seconds)
+    try:
+        yield
+    finally:
+        signal.setitimer(signal.ITIMER_REAL, 0)
+
+
+_alarm_installed: list = []
+
+
+def _on_alarm(signum, frame):
+    raise _Hang()
 
 
 @functools.lru_cache(maxsize=1 << 16)       # the tree does not change while it is searched
@@ -525,7 +633,7 @@ def _real(p: str) -> str:
     """os.path.realpath; a broken filesystem may have wandered into /proc, where entries vanish while being resolved."""
     try:
         return os.path.realpath(p)
-    except OSError:
+    except (OSError, ValueError):       # ValueError: embedded null byte
         return os.path.normpath(os.path.abspath(p))
 
 
@@ -567,6 +675,18 @@ def _sub_op(fs, sub: str, path: str, data: list, walk_limit: int, answers: list 
         with fs.open_str(path) as fh2:
             data.append(fh2.read())
         return 'data'
+    if sub == 'read_kv1':       # the inherited entry points FileSystem.read_kv1 / read_prop (deprecated spelling)
+        import warnings
+        from srctools.tokenizer import TokenSyntaxError
+        for how in ('read_kv1', 'read_prop'):
+            try:
+                with warnings.catch_warnings():
+                    warnings.simplefilter('ignore')
+                    kv = getattr(fs, how)(path)
+                data.append('\n'.join(k.real_name or '' for k in kv.iter_tree()))
+            except TokenSyntaxError as e:
+                data.append(str(e))
+        return 'keyvalues'
     n = 0
     for f in fs.walk_folder(path):      # lazily: an unconstrained walk of '../../..' must not list the whole disk
         n += 1
@@ -599,12 +719,31 @@ def run_op(base: str, root_spec: str, chain_prefix, op: str, path_t: str, cold: 
     os.chdir(base)
     data: list[str] = []
     answers: list[str] = []     # positive answers of the constrained filesystem about this name: `in` said True, [] returned a File
+    handle = raw = unexpected = None
+    cold_escape = exempt_answers = False
+    exempt: set = set()
+    limit = time_limit(60)      # one alarm around the whole case (preparation included); an operation takes milliseconds
+    limit.__enter__()
     try:
         fs, raw = make_fs(base, root_spec, chain_prefix)
         root = raw.path
         handle = None
         prep = None
         cold_escape = False
+        if isinstance(chain_prefix, tuple) and chain_prefix[0] == 'mixed':
+            # what the UNconstrained member of the chain touches on its own (it is exempt): the same operation on a chain
+            # that holds only such a member
+            from srctools.filesys import FileSystemChain
+            alone = FileSystemChain((new_raw(base + '/elsewhere', False), chain_prefix[1]))
+            ans_u: list = []
+            with observe() as ev_u:
+                try:
+                    if op in SUB_OPS:
+                        _sub_op(alone, op, path, [], 400, ans_u)
+                except (OSError, ValueError, UnicodeError):
+                    pass
+            exempt = {_real(os.path.join(base, p)) for _, p in ev_u}
+            exempt_answers = bool(ans_u)
         if op == 'handle_loose' and chain_prefix is not None:
             prep = 'no-handle:chain'          # a chain would open the wrapped handle through the unconstrained system
         elif op == 'handle_loose':
@@ -623,17 +762,17 @@ def run_op(base: str, root_spec: str, chain_prefix, op: str, path_t: str, cold: 
             if cold:
                 with observe() as ev0:
                     cold_data: list[str] = []
-                    for sub in SUB_OPS:
+                    for sub in HIST_SUB_OPS:
                         try:
                             _sub_op(fs, sub, path, cold_data, 60)
                         except (OSError, ValueError, UnicodeError):
                             pass
                 seen0 = [os.path.normpath(os.path.join(base, p)) for _, p in ev0] + \
-                    [os.path.join(base, d.strip()[len('CONTENT-OF:'):]) for d in cold_data if d.startswith('CONTENT-OF:')]
+                    [w for d in cold_data for w in content_paths(base, d)]
                 cold_escape = any(not is_inside(root, p) and not p.startswith(_ignored_prefixes()) for p in seen0)
                 fs, raw = make_fs(base, root_spec, chain_prefix)
             loose, _ = make_fs(base, root_spec, chain_prefix, constrain=False)
-            for sub in SUB_OPS:
+            for sub in HIST_SUB_OPS:
                 try:
                     _sub_op(loose, sub, path, [], 3)
                 except (OSError, ValueError, UnicodeError):
@@ -642,6 +781,28 @@ def run_op(base: str, root_spec: str, chain_prefix, op: str, path_t: str, cold: 
             try:
                 if prep is not None:
                     out = prep
+                elif op == 'read_kv1':
+                    # inherited entry point: FileSystem.read_kv1 -> self.open_str -> Keyvalues.parse; also through a handle
+                    # and the deprecated read_prop spelling.  The files are not keyvalues: a parse error is expected and
+                    # its text is kept (an error message quoting the file would be a leak as well)
+                    import warnings
+                    from srctools.tokenizer import TokenSyntaxError
+                    done = []
+                    for how in ('read_kv1', 'read_prop'):
+                        try:
+                            with warnings.catch_warnings():
+                                warnings.simplefilter('ignore')
+                                kv = getattr(fs, how)(path)
+                            data.append('\n'.join(f'{k.real_name}' for k in kv.iter_tree()))
+                            done.append(how)
+                        except RootEscapeError:
+                            pass
+                        except TokenSyntaxError as e:
+                            data.append(str(e))
+                            done.append(how + ':parse-error')
+                        except (OSError, ValueError, UnicodeError) as e:
+                            done.append(how + ':' + type(e).__name__)
+                    out = 'ok:' + ','.join(done) if done else 'RootEscapeError'
                 elif op == 'contains':
                     out = 'ok:' + _sub_op(fs, 'contains', path, data, 0, answers)
                 elif op == 'getitem':
@@ -676,7 +837,7 @@ def run_op(base: str, root_spec: str, chain_prefix, op: str, path_t: str, cold: 
                     out = f'ok:{n} files'
                 elif op == 'after_loose':
                     done = []
-                    for sub in SUB_OPS:
+                    for sub in HIST_SUB_OPS:
                         try:
                             done.append(sub + '=' + _sub_op(fs, sub, path, data, 60, answers))
                         except RootEscapeError:
@@ -720,27 +881,44 @@ def run_op(base: str, root_spec: str, chain_prefix, op: str, path_t: str, cold: 
                 out = 'RootEscapeError'
             except (OSError, ValueError, UnicodeError) as e:
                 out = type(e).__name__
+            except _Hang:
+                out = 'hang'
+                unexpected = 'no answer within 60 s'
+            except Exception as e:          # a fault may make the implementation fail in ways nobody catches: a failing input
+                out = 'unexpected:' + type(e).__name__
+                unexpected = f'{type(e).__name__}: {e}'[:200]
         events = [(k, os.path.normpath(os.path.join(base, p))) for k, p in ev]
+    except _Hang:                           # the alarm went off outside the observed block (preparation of the case)
+        out, unexpected, events = 'hang', 'no answer within the time limit while preparing the case', []
+        root = os.path.normpath(os.path.join(base, 't/root'))
     finally:
+        limit.__exit__(None, None, None)
         os.chdir(old)
     ignore = _ignored_prefixes()
-    escapes = [(k, p) for k, p in events if not is_inside(root, p) and not p.startswith(ignore)]
-    leaked = [d.strip() for d in data if d.startswith('CONTENT-OF:')
-              and not is_inside(root, os.path.join(base, d.strip()[len('CONTENT-OF:'):]))]
+    escapes = [(k, p) for k, p in events if not is_inside(root, p) and not p.startswith(ignore) and _real(p) not in exempt
+               and not any(k2 == 'os.walk' and is_inside(p2, p) for k2, p2 in events if _real(p2) in exempt)]
+    leaked = []
+    for d in data:
+        # contents name the file they are in ('CONTENT-OF:<path relative to BASE>'); an error message may quote them
+        for where in content_paths(base, d):
+            if not is_inside(root, where) and _real(where) not in exempt \
+                    and not (exempt and is_inside(base + '/elsewhere', where)):
+                leaked.append('CONTENT-OF:' + os.path.relpath(where, base))
     # an existence test / lookup that answers (instead of raising) about a name that lexically leads out of the root has
     # told the caller something about the outside, even when a cache made the OS call unnecessary
     # (where the name leads: a chain joins its prefix first and then turns the slashes, so '\\in.txt' under prefix 'sub' is
     # 'sub//in.txt'; a RawFileSystem turns the slashes of the name and joins it to the root)
-    rel = path.replace('\\', '/') if chain_prefix is None else os.path.join(chain_prefix, path).replace('\\', '/')
+    rel = chain_rel(chain_prefix, path)
     target = os.path.normpath(os.path.join(root, rel))
-    answered_outside = [[a, target] for a in answers if not is_inside(root, target)]
+    answered_outside = [[a, target] for a in answers if not is_inside(root, target) and not exempt_answers]
     pre_escapes = 0
-    if chain_prefix:
+    if chain_prefix and isinstance(chain_prefix, str):
         sub = os.path.join(root, chain_prefix)
         pre_escapes = sum(1 for k, p in events if is_inside(root, p) and not is_inside(sub, p))
     return {'outcome': out, 'root': root, 'events': events, 'escapes': escapes, 'leaked': leaked, 'data': data[:3],
             'answered_outside': answered_outside,
-            'prefix_escapes': pre_escapes, 'handle_path': None if handle is None else handle.path, 'cold_escape': cold_escape}
+            'prefix_escapes': pre_escapes, 'handle_path': None if handle is None else handle.path, 'cold_escape': cold_escape,
+            'unexpected': unexpected, 'constrained_flag': bool(getattr(raw, 'constrain_path', False))}
 
 
 def classify(root: str, p: str) -> str:
@@ -795,6 +973,21 @@ def search_trees(ck: Ck) -> None:
         path = path_t.replace('{BASE}', base)
         if ('..' in path or path.startswith('/') or '\\' in path) and r['events'] or r['outcome'] == 'RootEscapeError':
             ck.seen((label, cp, op, path_t))
+        if r['unexpected'] is not None:
+            # the implementation failed in a way no caller is prepared for (or did not come back): a failing input of its own
+            kind = 'hang' if r['outcome'] == 'hang' else 'unexpected-exception'
+            ukey = f'{kind}-{op}-{r["outcome"].split(":")[-1]}'
+            if ukey not in found:
+                found[ukey] = {'root': root_spec, 'root_config': label, 'chain_prefix': cp, 'op': op, 'path': path_t,
+                               'file_handle_path': r['handle_path'], 'outcome': r['outcome'] + ' (' + r['unexpected'] + ')',
+                               'accessed_outside_root': [], 'data_returned': [], 'answered_about_outside': [],
+                               'how': 'checks.c18.replay: builds the tree TREE under a fresh {BASE} and runs the op', '_rank': (2, 0), '_n': 0}
+            found[ukey]['_n'] += 1
+        if label.startswith('factory-') and not r['constrained_flag'] and 'factory-makes-unconstrained-file-system' not in found:
+            found['factory-makes-unconstrained-file-system'] = {
+                'root': root_spec, 'root_config': label, 'chain_prefix': cp, 'op': op, 'path': path_t, 'file_handle_path': None,
+                'outcome': 'the RawFileSystem made by the package factory has constrain_path=False', 'accessed_outside_root': [],
+                'data_returned': [], 'answered_about_outside': [], 'how': 'checks.c18.replay', '_rank': (2, 0), '_n': 1}
         if not r['escapes'] and not r['leaked'] and not r['answered_outside']:
             return False
         if op in SUB_OPS:
@@ -825,23 +1018,53 @@ def search_trees(ck: Ck) -> None:
                   # apply between the check and the use (strip, Unicode NFKC, URL unquoting, case folding, ~ / $VAR expansion)
                   ' ../above.txt', '../above.txt ', '\uff0e\uff0e/above.txt', '%2e%2e/above.txt', '..%2fabove.txt',
                   '../Root/in.txt', '../ROOT/sub/in.txt', '{BASE}/T/ROOT/../above.txt', '~/../above.txt', '$PWD/../above.txt',
-                  '..\u2215above.txt', 'sub/\u2025/above.txt']
+                  '..\u2215above.txt', 'sub/\u2025/above.txt',
+                  # round 4: path syntax of other systems (drive letters, UNC, device paths: ordinary characters here), NUL
+                  # bytes, '..' after components that do not exist, names and paths beyond NAME_MAX / PATH_MAX
+                  'C:\\..\\..\\above.txt', 'C:/../../above.txt', 'C:..\\above.txt', 'C:\\in.txt', 'c:/{BASE}/t/above.txt',
+                  '\\\\server\\share\\..\\..\\above.txt', '//server/share/../../{BASE}/t/above.txt', '\\\\?\\{BASE}\\t\\above.txt',
+                  '\\\\.\\..\\above.txt', '//{BASE}/t/above.txt', '///{BASE}/t/above.txt', 'file:///{BASE}/t/above.txt',
+                  'in.txt\x00/../../above.txt', '../above.txt\x00', '\x00/../above.txt', '..\x00/above.txt', 'in.txt\x00',
+                  'nope/../../above.txt', 'nope/nope/../../../above.txt', 'nope/../in.txt', 'in.txt/../../above.txt',
+                  'in.txt/../a', 'sub/deep.txt/../../../above.txt',
+                  'n' * 300 + '/../../above.txt', 'n' * 300 + '/../in.txt', 'x/' * 2500 + '../' * 2501 + 'above.txt',
+                  'x/' * 2500 + '../' * 2500 + 'in.txt', '../' * 3000 + '{BASE}/t/above.txt'.lstrip('/')]
+        n_corpus = len(corpus)
         tp = corpus + targeted_paths(base, root_abs_t)
-        for cp in CHAIN_PREFIXES:
+        factory = label.startswith('factory-')
+        for cp in CHAIN_PREFIXES + NESTED_CHAINS:
             if cp is not None and label not in ('abs', 'relative', 'nested'):
                 continue
+            if isinstance(cp, tuple) and label == 'relative':
+                continue
             for k, path_t in enumerate(tp):
-                ops = OPS if cp is None or label == 'abs' else ['getitem', 'walk', 'handle_made', 'after_loose']
+                full = ck.thorough or bool(ck.tie_broken) or k < n_corpus
+                if isinstance(cp, tuple):
+                    if not (full or k % 6 == 1) or (not ck.thorough and not ck.tie_broken and cp in NESTED_CHAINS[1:4:2]):
+                        continue
+                    ops = ['contains', 'getitem', 'open_bin', 'walk'] + (['handle_made'] if cp[0] == 'nest' else [])
+                elif factory:
+                    if not (full or k % 6 == 2):
+                        continue
+                    ops = (OPS if label == 'factory-get_filesystem' else SUB_OPS) + ENTRY_OPS
+                else:
+                    # root spellings that differ from 'abs' only in how the same folder is written: every second targeted
+                    # spelling in the quick tier (the parity alternates between them, so each spelling meets two of the four)
+                    if label in THIN_LABELS and not (full or k % 2 == THIN_LABELS.index(label) % 2):
+                        continue
+                    ops = OPS if cp is None or label == 'abs' else ['getitem', 'walk', 'handle_made', 'after_loose']
+                    if cp is None and (full or k % 4 == 0):
+                        ops = ops + ENTRY_OPS
                 for op in ops:
                     # the history op costs ten operations: in the quick tier on the corpus and every second spelling; the
                     # plain operations on the same name come first in `ops` and say whether an escape needs the history
-                    if op == 'after_loose' and not (ck.thorough or ck.tie_broken or k < len(corpus) or k % 2 == 0):
+                    if op == 'after_loose' and not (ck.thorough or ck.tie_broken or k < n_corpus or k % 2 == 0):
                         continue
                     case(label, root_spec, cp, op, path_t, cold=False)
     # 2. random segment paths
     rng = ck.rng
     for _ in range(n_random):
-        label, root_spec = rng.choice(ROOT_CONFIGS)
+        label, root_spec = rng.choice(ROOT_CONFIGS[:PLAIN_CONFIGS])
         cp = rng.choice(CHAIN_PREFIXES) if rng.random() < 0.3 else None
         k = rng.choice([1, 2, 3, 4, 5, 6])
         segs = [rng.choice(SEGS) for _ in range(k)]
@@ -881,6 +1104,97 @@ def search_trees(ck: Ck) -> None:
                 + (f', answered {rep["answered_about_outside"][:1]}' if rep['answered_about_outside'] else '') + f' ({n} such cases)')
         ck.violation(key, what, rep)
     ck.extra['tree_violation_keys'] = sorted(found)
+    shutil.rmtree(base_dir, ignore_errors=True)
+
+
+def import_package_modules(ck: Ck) -> None:
+    """Import every module of the package that mentions the file-system classes (what an application using srctools has
+    loaded): a monkey patch applied from another module at import time is then in force during the search."""
+    import importlib
+    loaded, failed = [], []
+    for rel in ck.extra.get('translated', {}).get('FsCensus_gen', {}).get('modules_mentioning_the_classes', []):
+        name = 'srctools.' + rel[:-3].replace('/', '.')
+        if name.endswith('.__init__'):
+            name = name[:-9]
+        try:
+            with time_limit(60):
+                importlib.import_module(name)
+            loaded.append(name)
+        except _Hang:
+            failed.append(name + ': import did not finish')
+        except Exception as e:      # optional dependencies, scripts that want arguments ...
+            failed.append(f'{name}: {type(e).__name__}')
+    ck.extra['package_modules_imported_before_the_search'] = loaded
+    if failed:
+        ck.extra['package_modules_not_importable'] = failed
+
+
+def observe_symlinks(ck: Ck) -> None:
+    """The reading of C18 is lexical (os.path.abspath never consults the file system; Props/C18.v c18_symlink_*): what a
+    symbolic link INSIDE the root points to is content of the root.  Observed on a real tree, reported only if a path handed
+    to the OS is LEXICALLY outside the root: (1) a link inside the root to a folder / file outside is followed; (2) '..'
+    after a link is taken lexically; (3) a root reached through a link keeps the link's spelling, and the real spelling of
+    the same folder is refused; (4) os.walk does not descend into linked folders."""
+    from srctools.filesys import RootEscapeError
+    base_dir = Path(tempfile.mkdtemp(prefix='links_', dir=ck.scratch))
+    base = os.path.realpath(base_dir)
+    for rel in ('t/root/in.txt', 't/root/sub/deep.txt', 't/outside/secret.txt', 't/above.txt', 't/in.txt'):
+        q = Path(base) / rel
+        q.parent.mkdir(parents=True, exist_ok=True)
+        q.write_text(f'"CONTENT-OF:{rel}" "1"\n')
+    try:
+        os.symlink('../outside', base + '/t/root/link')
+        os.symlink('../above.txt', base + '/t/root/flink')
+        os.symlink('root', base + '/t/rootlink')
+        os.symlink(base + '/t/outside', base + '/t/root/sub/abslink')
+    except OSError as e:
+        ck.extra['symlink_observations'] = f'symbolic links cannot be created here: {e}'
+        shutil.rmtree(base_dir, ignore_errors=True)
+        return
+    obs: dict = {}
+    bad: list = []
+
+    def lexically_inside(root: str, p: str) -> bool:
+        r = [c for c in os.path.normpath(root).split('/') if c]
+        q = [c for c in os.path.normpath(p).split('/') if c]
+        return q[:len(r)] == r and '..' not in q
+
+    def ask(label: str, root: str, op: str, name: str):
+        fs = new_raw(root)
+        data: list = []
+        with observe() as ev:
+            try:
+                with time_limit(60):
+                    out = _sub_op(fs, op, name, data, 50)
+            except RootEscapeError:
+                out = 'RootEscapeError'
+            except (OSError, ValueError) as e:
+                out = type(e).__name__
+        handed = [os.path.normpath(os.path.join(os.getcwd(), p)) if not os.path.isabs(p) else p for _, p in ev]
+        for p in handed:
+            ck.count('symlink_tree_accesses')
+            if not lexically_inside(fs.path, p) and not p.startswith(_ignored_prefixes()):
+                bad.append({'root': root.replace(base, '{BASE}'), 'op': op, 'path': name, 'handed_to_os': p.replace(base, '{BASE}')})
+        srcs = sorted({w.replace(base + '/', '') for d in data for w in content_paths(base, d)})
+        obs[label] = {'outcome': out, 'content_from': srcs}
+        ck.seen(('symlink', label))
+        return out, srcs
+
+    root = base + '/t/root'
+    ask('folder link inside the root, pointing out: link/secret.txt', root, 'open_bin', 'link/secret.txt')
+    ask('file link inside the root, pointing out: flink', root, 'open_bin', 'flink')
+    ask('absolute folder link below the root: sub/abslink/secret.txt', root, 'getitem', 'sub\\abslink\\secret.txt')
+    ask('".." after a link is lexical: link/../in.txt', root, 'open_bin', 'link/../in.txt')
+    ask('".." out through a link: link/../../above.txt', root, 'open_bin', 'link/../../above.txt')
+    ask('walk of the root (os.walk does not descend into linked folders)', root, 'walk', '')
+    ask('walk of a linked folder', root, 'walk', 'link')
+    ask('root given through a link: in.txt', base + '/t/rootlink', 'open_bin', 'in.txt')
+    ask('root given through a link, real spelling of a file inside it', base + '/t/rootlink', 'open_bin', base + '/t/root/in.txt')
+    ask('root given through a link: ../root/in.txt', base + '/t/rootlink', 'open_bin', '../root/in.txt')
+    ck.extra['symlink_observations(lexical reading, not violations)'] = obs
+    for b in bad[:1]:
+        ck.violation('escape-lexical-through-link', f'{b["op"]}({b["path"]!r}) on RawFileSystem({b["root"]!r}) handed '
+                     f'{b["handed_to_os"]} to the OS: lexically outside the root', dict(b, how='checks.c18.observe_symlinks'))
     shutil.rmtree(base_dir, ignore_errors=True)
 
 
@@ -1180,9 +1494,11 @@ def run(ck: Ck) -> None:
     ok_t = ck.translate('FsCensus_gen', c18_census.translate) and ok_t
     side = ck.extra.get('translated', {}).get('Containment_gen', {})
     RESOLVE_METHOD[0] = side.get('resolve_method', '_resolve_path')
+    t = _stage(ck, 'translate', t)
     built = ok_t and ck.build(['Props/C18.vo', 'SM/PathNormEnum.vo'])
+    t = _stage(ck, 'build', t)
+    th = None
     if built:
-        ck.theorems('Props/C18.v')
         res = ck.instance_obligations(IMPORTS, {
             'guard_is_a_sound_segmentwise_form': 'raise_sound raise_if',
             'root_is_stored_as_abspath': 'root_is_abspath',
@@ -1205,10 +1521,15 @@ def run(ck: Ck) -> None:
             'no_cached_function_of_another_module_is_reached': 'nilb reachable_foreign_caches',
             'file_system_objects_keep_no_table_or_outside_state': 'objects_keep_no_table_or_outside_state',
             'entry_points_land_on_access_methods': 'entry_points_land_on_access_methods',
+            'package_factories_construct_constrained_systems': 'package_factories_construct_constrained_systems',
             # the hypothesis of c18_property / c18_property_today for the record of all generated objects
             'c18_property_hypotheses_hold_for_todays_source': 'c18_property_hypotheses_hold_today',
         })
         cen_side = ck.extra.get('translated', {}).get('FsCensus_gen', {})
+        for w in cen_side.get('raw_file_system_constructions', []):
+            ck.hist('raw_file_system_construction', f'{w[0]}:{w[2].split(":")[0]}')
+            if w[2] != 'constrained':
+                ck.notes.append('package census constructions: ' + ' / '.join(w))
         for k in ('foreign_patches', 'foreign_subclasses', 'decorator_origins', 'reachable_foreign_caches', 'per_object_state',
                   'entry_unread'):
             for w in cen_side.get(k, []):
@@ -1233,14 +1554,22 @@ def run(ck: Ck) -> None:
             ck.notes.append('RawFileSystem._resolve_path differs from the texts the model was written against: '
                             'correspondence compares every function on every block (escalated budget)')
             ESCALATE.append(True)
-        t = _stage(ck, 'translate+build+obligations', t)
+        t = _stage(ck, 'instance_obligations', t)
         started = corr_exhaustive_start(ck)
         t = _stage(ck, 'corr_exhaustive_implementation_side', t)
+        # Print Assumptions of every theorem (one coqc process) runs next to the search as well; nothing else uses
+        # ck.coq_scratch until it is joined
+        th = threading.Thread(target=ck.theorems, args=('Props/C18.v',), daemon=True)
+        th.start()
         # the search on real trees runs in this thread while the coqc processes of the correspondence run
         ties_before = len(ck.tie_broken)
+        import_package_modules(ck)
         search_trees(ck)
         searched = True
+        observe_symlinks(ck)
         t = _stage(ck, 'search_trees(while coqc runs)', t)
+        th.join()
+        t = _stage(ck, 'theorems(Print Assumptions)_wait', t)
         corr_exhaustive_finish(ck, started)
         t = _stage(ck, 'corr_exhaustive_wait', t)
         corr_random(ck)
@@ -1250,7 +1579,9 @@ def run(ck: Ck) -> None:
         corr_ops(ck)
         t = _stage(ck, 'corr_ops', t)
     if not searched:
+        import_package_modules(ck)
         search_trees(ck)
+        observe_symlinks(ck)
         t = _stage(ck, 'search_trees', t)
     elif len(ck.tie_broken) > ties_before and not ck.thorough and not ck.violations:
         # a correspondence disagreed after the search had run with the small budget: search again with the escalated one
@@ -1271,7 +1602,8 @@ def run(ck: Ck) -> None:
         for nm in ('no_monkey_patch_of_the_file_system_classes_or_path_library_in_the_package',
                    'no_subclass_of_raw_file_system_redefines_a_method_in_the_package', 'neutral_decorators_are_the_library_ones',
                    'no_cached_function_of_another_module_is_reached', 'file_system_objects_keep_no_table_or_outside_state',
-                   'entry_points_land_on_access_methods', 'c18_property_hypotheses_hold_for_todays_source'):
+                   'entry_points_land_on_access_methods', 'c18_property_hypotheses_hold_for_todays_source',
+                   'package_factories_construct_constrained_systems'):
             ck.explain('instance:' + nm)
         ck.explain('translate:FsCensus_gen')
         ck.explain('translate:FsOps_gen')
@@ -1298,7 +1630,8 @@ def replay(data: dict) -> int:
         try:
             base = os.path.realpath(base_dir)
             build_tree(Path(base))
-            out = run_op(base, r['root'], r['chain_prefix'], r['op'], r['path'])
+            cp = tuple(r['chain_prefix']) if isinstance(r['chain_prefix'], list) else r['chain_prefix']
+            out = run_op(base, r['root'], cp, r['op'], r['path'])
             print('root          :', out['root'].replace(base, '{BASE}'))
             print('operation     :', r['op'], repr(r['path']), 'chain prefix', repr(r['chain_prefix']))
             print('outcome       :', out['outcome'])
@@ -1306,7 +1639,8 @@ def replay(data: dict) -> int:
             print('accesses      :', [(k, p.replace(base, '{BASE}')) for k, p in out['events']])
             print('outside root  :', [(k, p.replace(base, '{BASE}')) for k, p in out['escapes']])
             print('answered about:', [(a, p.replace(base, '{BASE}')) for a, p in out['answered_outside']])
-            bad = bool(out['escapes'] or out['leaked'] or out['answered_outside'])
+            print('unexpected    :', out['unexpected'])
+            bad = bool(out['escapes'] or out['leaked'] or out['answered_outside'] or out['unexpected'])
             print('VIOLATION reproduced' if bad else 'no escape on this tree')
             return 1 if bad else 0
         finally:
